@@ -306,3 +306,66 @@ package leveldb
 //@     invariant [lk-parked] db.compWriteLocking ==> held(db.writeLockC) >= 1
 //@   loop 3
 //@     invariant [lk-parked] db.compWriteLocking ==> held(db.writeLockC) >= 1
+
+// ---------------------------------------------------------------------------
+// Manifest bookkeeping (C01, C04, C08): every successful commit records the journal and sequence numbers its
+// record carries (I5), on every branch, and a failed commit leaves the session state unchanged.
+
+//@ spec func recHas(h int, rec int) bool = (h & (1 << rec)) != 0
+
+//@ func (*sessionRecord).has
+//@   props C04
+//@   mode bv
+//@   ensures result == recHas(p.hasRec, rec)
+
+//@ func (*version).fillRecord
+//@   props C04
+//@   mode bv
+//@   loop 1
+//@     invariant (r.hasRec & old(r.hasRec)) == old(r.hasRec) && r.seqNum == old(r.seqNum) && r.journalNum == old(r.journalNum)
+//@   loop 2
+//@     invariant (r.hasRec & old(r.hasRec)) == old(r.hasRec) && r.seqNum == old(r.seqNum) && r.journalNum == old(r.journalNum)
+//@   ensures [keeps-bits] (r.hasRec & old(r.hasRec)) == old(r.hasRec)
+//@   ensures [keeps-numbers] r.seqNum == old(r.seqNum) && r.journalNum == old(r.journalNum)
+
+//@ func (*session).fillRecord
+//@   props C04
+//@   mode bv
+//@   requires r != nil
+//@   loop 1
+//@     invariant (r.hasRec & old(r.hasRec)) == old(r.hasRec) && (r.hasRec & 20) == 20 && r.seqNum == (old(recHas(r.hasRec, recSeqNum)) ? old(r.seqNum) : s.stSeqNum) && r.journalNum == (old(recHas(r.hasRec, recJournalNum)) ? old(r.journalNum) : s.stJournalNum)
+//@     invariant s.stSeqNum == old(s.stSeqNum) && s.stJournalNum == old(s.stJournalNum)
+//@   ensures [snapshot-has-both] snapshot ==> (recHas(r.hasRec, recJournalNum) && recHas(r.hasRec, recSeqNum))
+//@   ensures [own-seq-kept] r.seqNum == ((old(recHas(r.hasRec, recSeqNum)) || !snapshot) ? old(r.seqNum) : s.stSeqNum)
+//@   ensures [own-journal-kept] r.journalNum == ((old(recHas(r.hasRec, recJournalNum)) || !snapshot) ? old(r.journalNum) : s.stJournalNum)
+//@   ensures [bits-only-added] (r.hasRec & old(r.hasRec)) == old(r.hasRec)
+//@   ensures [no-new-seq-bit-without-snapshot] !snapshot ==> (recHas(r.hasRec, recSeqNum) == old(recHas(r.hasRec, recSeqNum)) && recHas(r.hasRec, recJournalNum) == old(recHas(r.hasRec, recJournalNum)))
+//@   ensures [session-unchanged] s.stSeqNum == old(s.stSeqNum) && s.stJournalNum == old(s.stJournalNum)
+
+//@ func (*session).recordCommited
+//@   props C04
+//@   mode bv
+//@   requires rec != nil
+//@   ensures [journal] s.stJournalNum == (recHas(rec.hasRec, recJournalNum) ? rec.journalNum : old(s.stJournalNum))
+//@   ensures [seq] s.stSeqNum == (recHas(rec.hasRec, recSeqNum) ? rec.seqNum : old(s.stSeqNum))
+
+//@ func (*session).flushManifest
+//@   props C04
+//@   mode bv
+//@   requires rec != nil && s.manifest != nil
+//@   ensures [I5-seq] err == nil ==> s.stSeqNum == (old(recHas(rec.hasRec, recSeqNum)) ? old(rec.seqNum) : old(s.stSeqNum))
+//@   ensures [I5-journal] err == nil ==> s.stJournalNum == (old(recHas(rec.hasRec, recJournalNum)) ? old(rec.journalNum) : old(s.stJournalNum))
+//@   ensures [error-changes-nothing] err != nil ==> (s.stSeqNum == old(s.stSeqNum) && s.stJournalNum == old(s.stJournalNum))
+
+//@ func (*session).newManifest
+//@   props C04
+//@   mode bv
+//@   ensures [I5-seq] err == nil ==> s.stSeqNum == ((old(rec) != nil && old(recHas(rec.hasRec, recSeqNum))) ? old(rec.seqNum) : old(s.stSeqNum))
+//@   ensures [I5-journal] err == nil ==> s.stJournalNum == ((old(rec) != nil && old(recHas(rec.hasRec, recJournalNum))) ? old(rec.journalNum) : old(s.stJournalNum))
+
+//@ func (*session).commit
+//@   props C01 C04 C08 C11
+//@   mode bv
+//@   requires r != nil
+//@   ensures [C01,C04,C11:I5-seq] (err == nil && old(recHas(r.hasRec, recSeqNum))) ==> s.stSeqNum == old(r.seqNum)
+//@   ensures [C01,C04,C11:I5-journal] (err == nil && old(recHas(r.hasRec, recJournalNum))) ==> s.stJournalNum == old(r.journalNum)
